@@ -2837,20 +2837,24 @@ impl Lexer<'_> {
                         // Quoted char
 
                         // First, store the literal section before the escape percent
-                        let (new_start, new_end) =
+                        let (new_start, _) =
                             self.add_string_literal_from_src(last_lit_end_byte_offset, None);
                         lit_start_idx = min(lit_start_idx, new_start);
-                        lit_end_idx = new_end;
 
                         // Now advance the cursor past the percent
                         self.cursor.advance();
+                        let quoted_char_byte_offset = self.cur_byte_offset();
 
-                        // And update the last byte offset - this will ensure that the
-                        // following escaped char will be included in the next literal section
-                        last_lit_end_byte_offset = self.cur_byte_offset();
-
-                        // Finally, advance the cursor past the quoted char
+                        // Then advance the cursor past the quoted char and store it
+                        // right away. The section before the percent may be empty, but
+                        // this one never is, so we always know that a payload is needed
                         self.cursor.advance();
+                        let (_, new_end) =
+                            self.add_string_literal_from_src(quoted_char_byte_offset, None);
+                        lit_end_idx = new_end;
+
+                        // And update the last byte offset
+                        last_lit_end_byte_offset = self.cur_byte_offset();
                         continue;
                     }
 
